@@ -18,8 +18,8 @@ from ..explore.sched import Deadlock, Sched
 
 PID = "C15"
 LEVEL = "model_checking"
-TECHNIQUE = ("stateless model checking of real threads under a cooperative baton scheduler (sys.settrace call events in library code): "
-             "exhaustive enumeration of all schedules with <= p preemptions (iterative context bounding) at every library function entry and at every line of state-changing functions, each thread's result compared with its solo result")
+TECHNIQUE = ("stateless model checking of real threads under a cooperative baton scheduler (sys.monitoring events in library code): "
+             "exhaustive enumeration of all schedules with <= p preemptions (iterative context bounding) at every library function entry and at every line of state-changing functions, plus non-nested two-preemption schedules over the epochs of constant process-global state; each thread's result compared with its solo result")
 LEVEL_TEXT = ("Every schedule of 2 (and 3) encoding threads with at most one preemption at any library function-call boundary is executed on the real code; "
               "two preemptions exhaustively on the smallest document in the thorough tier, and for every pair inside the start-up window and over the epoch grid (non-nested order). Only specific preemption windows corrupt a result, so the schedule "
               "space has to be enumerated rather than stressed.")
@@ -55,10 +55,13 @@ def solo(name):
     return _SOLO[name]
 
 
-def run_schedule(names, start, plan):
+def run_schedule(names, start, plan, inherit=False):
     _SNAP.restore()
     docs = _docs(names)
-    s = Sched([d.rtf_encode for d in docs], plan)
+    if inherit:
+        # the launching thread has encoded a document of its own before it starts the workers, and the workers inherit a copy of its context
+        _docs([names[0]])[0].rtf_encode()
+    s = Sched([d.rtf_encode for d in docs], plan, inherit_context=inherit)
     res, counts = s.run(start=start)
     return res, counts, s.switches
 
@@ -140,7 +143,7 @@ def eval_case(case: dict) -> dict:
         plans = [[(tuple(k), v) for k, v in case["plan"]]]
     for plan in plans:
         try:
-            res, counts, sw = run_schedule(names, start, plan)
+            res, counts, sw = run_schedule(names, start, plan, inherit=bool(case.get("inherit")))
         except Deadlock as e:
             viol.append({"klass": None, "sig": "deadlock", "detail": f"{e}; docs={names} start={start} plan={plan}"})
             continue
@@ -151,7 +154,7 @@ def eval_case(case: dict) -> dict:
         outcomes.add(tuple(digest(r) for r in res))
         if bad:
             # determinism: the same schedule must fail identically
-            res2, _, _ = run_schedule(names, start, plan)
+            res2, _, _ = run_schedule(names, start, plan, inherit=bool(case.get("inherit")))
             b = bad[0]
             if [digest(r) for r in res2] != [digest(r) for r in res]:
                 # the wrong result is real (it was returned); that the same schedule from the restored pristine state
@@ -162,7 +165,7 @@ def eval_case(case: dict) -> dict:
                 continue
             klass = "shared-colour-context-race" if all(x[2] for x in bad) else None
             viol.append({"klass": klass, "sig": f"interference-{klass}-{len(plan)}pre",
-                         "detail": f"docs={names} start={start} preemptions={[(k, v, ) for k, v in plan]} at {sw}: thread {b[0]} ({b[1]}) returned {b[3]}, solo {b[4]}",
+                         "detail": f"docs={names} start={start}{' threads-inherit-a-copy-of-the-launching-context' if case.get('inherit') else ''} preemptions={[(k, v, ) for k, v in plan]} at {sw}: thread {b[0]} ({b[1]}) returned {b[3]}, solo {b[4]}",
                          "plan": plan})
     best = {}
     for v in viol:
@@ -181,7 +184,7 @@ def eval_case(case: dict) -> dict:
 def plan(run):
     quick = run.tier == "quick"
     run.rule = ("threads encode pool documents (red 4x2 with title; blue/green paginated with footnote; coloured multi-section; figure with coloured title; plain; grouped; two page_by documents with different data; two paginated group_by documents whose page starts and group starts coincide); "
-                "for every ordered pair (quick: 4 ordered pairs, two of them seed-rotated + one document with itself + one triple; thorough: all 30 pairs, 4 self-pairs, 6 triples) every schedule with 0 or 1 preemption at every library call boundary; 3 threads "
+                "for every ordered pair (quick: 4 ordered pairs, two of them seed-rotated + one document with itself + one triple; thorough: 34 ordered pairs, 4 self-pairs, 6 triples) every schedule with 0 or 1 preemption at every library call boundary; 3 threads "
                 "with <= 1 preemption; every schedule with 2 preemptions inside the first W call boundaries of both threads (W=60 quick for one seed-rotated pair, 80 thorough for the 12 ordered pairs of the four coloured documents); every NON-nested 2-preemption schedule (A paused at p, B runs to q, A runs to its end, B continues) with p, q in {first, last and the two points after the first of every epoch of constant process-global state of the solo encode} "
                 "plus an even grid of G points (G=16 quick, 32 thorough); thorough: 2 preemptions exhaustively on the smallest document encoded by two threads. states = schedules executed; transitions = preemptions executed; non-trivial = distinct schedules in which a preemption was actually executed")
     run.assumptions = ["scheduling points are entries of functions whose code file is under <repo>/src/rtflite/, plus every line of the library "
@@ -197,7 +200,8 @@ def plan(run):
         same = ["red"]
         trips = [("red", "paged", "multi")]
     else:
-        pairs = list(itertools.permutations(DOCS, 2))
+        # (sized to the budget: all ordered pairs of the first six documents plus the page_by and the group_by pair in both orders)
+        pairs = list(itertools.permutations(DOCS[:6], 2)) + [("pbA", "pbB"), ("pbB", "pbA"), ("gpA", "gpB"), ("gpB", "gpA")]
         same = DOCS[:4]
         trips = list(itertools.permutations(DOCS[:3]))
     line_funcs = {}
@@ -278,6 +282,14 @@ def plan(run):
         for i in range(0, len(pq), 30):
             cases.append({"mode": "grid", "docs": [a, b], "start": 0, "pq": pq[i:i + 30], "line_funcs": LF})
     run.layer("2-threads-2-preemptions-non-nested-epoch-grid", "mc.props.c15:eval_case", cases, chunk=1, total=len(cases), on_result=on_res)
+    # the same grid with worker threads that start inside a COPY of the launching thread's context, after that thread has encoded
+    # once (asyncio.to_thread / copy_context().run; optional for plain threads from Python 3.14 on)
+    cases = []
+    for a, b in (gpairs[:1] if quick else gpairs):
+        pq = [(0, 0)] + [(p_, q_) for p_ in point_set(a)[::2] for q_ in point_set(b)[::2]]
+        for i in range(0, len(pq), 30):
+            cases.append({"mode": "grid", "docs": [a, b], "start": 0, "pq": pq[i:i + 30], "line_funcs": LF, "inherit": True})
+    run.layer("2-threads-inherited-context-epoch-grid", "mc.props.c15:eval_case", cases, chunk=1, total=len(cases), on_result=on_res)
     if not quick:
         # (sized to the budget: |A| x |B| schedules; the first thorough run showed that two different documents are out of reach)
         small = sorted(counts, key=counts.get)[:1]
